@@ -275,6 +275,13 @@ def prose_less_breaks(kind, ir, inline_types=True):
     return False
 
 
+def zlib_mod(c):
+    import json
+    import zlib
+
+    return zlib.crc32(json.dumps(c, sort_keys=True, default=repr).encode())
+
+
 def zero_allowed(typ):
     return [ZERO[typ]] if typ in ZERO else []
 
@@ -694,7 +701,7 @@ class C03(AstKindProp):
         # right after a description with a returned default: the same description WITHOUT it (its docstring text is
         # identical - nothing remembered about that text may carry the default over)
         r = c["ir"].get("returns")
-        if r is not None and "default" in r and r.get("doc") and not fails:
+        if r is not None and "default" in r and (r.get("doc") or c["opts"].get("inline_types")) and not fails:
             c2 = copy.deepcopy(c)
             del c2["ir"]["returns"]["default"]
             try:
@@ -702,6 +709,22 @@ class C03(AstKindProp):
                 got = ((back2.get("returns") or {}).get("return_type") or {}).get("default")
                 if got is not None:
                     fails.append({"what": "a returned default appears in the round trip of a description that has none (converted right after one that has)", "got": repr(got)[:80]})
+            except Exception:
+                pass
+        # ... and the prose-less variant (every 8th case): a function that returns a value and declares only `-> T`, then one
+        # that declares only `-> U`: nothing of the first return entry may show in the second
+        if not fails and zlib_mod(c) % 8 == 0:
+            base = copy.deepcopy(c)
+            base["opts"] = dict(base["opts"], inline_types=True, emitted_before=False)
+            c1, c2 = copy.deepcopy(base), copy.deepcopy(base)
+            c1["ir"]["returns"] = {"typ": "int", "default": {"t": "str", "v": "```[1, 2]```"}}
+            c2["ir"]["returns"] = {"typ": "Optional[str]"}
+            try:
+                self.conv(c1)
+                _, _, back2 = self.conv(c2)
+                got = ((back2.get("returns") or {}).get("return_type") or {})
+                if got.get("default") is not None or got.get("typ") not in (None, "Optional[str]"):
+                    fails.append({"what": "a returned default appears in the round trip of a description that has none (converted right after one that has)", "got": repr(got)[:120]})
             except Exception:
                 pass
         return fails
